@@ -40,7 +40,7 @@ pub const CTORS: &[Ctor] = &[
 /// Names probed at every site: variables, template arguments, fields, defs, a defset, an undeclared name.
 pub const POOL: &[&str] = &["u", "w", "p", "q", "f", "g", "x", "y", "s", "bp", "zz", "bv"];
 
-pub const WRAPPERS: usize = 12;
+pub const WRAPPERS: usize = 19;
 
 /// The probe name inside one of the use positions the indexer visits.
 pub fn wrap(w: usize, n: &str) -> E {
@@ -56,6 +56,16 @@ pub fn wrap(w: usize, n: &str) -> E {
         8 => E::Bang("!if".into(), None, vec![E::Bool(true), id(n), id(n)]),
         9 => E::BForeach("e".into(), Box::new(E::List(vec![int(1)])), Box::new(E::Bang("!add".into(), None, vec![id("e"), id(n)]))),
         10 => E::BFoldl(Box::new(int(0)), Box::new(E::List(vec![int(1)])), "a".into(), "b".into(), Box::new(E::Bang("!add".into(), None, vec![id("a"), id("b"), id(n)]))),
+        // the base of a field access, of an element access, of a bit access; the operator of a dag;
+        // the operand of a typed operator; the sequence of !foreach and the start value of !foldl
+        12 => E::Field(Box::new(id(n)), "f".into()),
+        13 => E::ElemAt(Box::new(id(n)), 0),
+        14 => E::BitAt(Box::new(id(n)), 0),
+        15 => E::Dag(Box::new(id(n)), vec![(int(1), None)]),
+        16 => E::Bang("!cast".into(), Some(Ty::Class("Base".into())), vec![id(n)]),
+        // (the variable is not used: it is only declared when the sequence is a list, which the probe names are not)
+        17 => E::BForeach("e".into(), Box::new(id(n)), Box::new(int(0))),
+        18 => E::BFoldl(Box::new(id(n)), Box::new(E::List(vec![int(1)])), "a".into(), "b".into(), Box::new(E::Bang("!add".into(), None, vec![id("a"), id("b")]))),
         _ => E::BFilter("e".into(), Box::new(E::List(vec![int(1), int(2)])), Box::new(E::Bang("!eq".into(), None, vec![id("e"), id(n)]))),
     }
 }
